@@ -462,7 +462,9 @@ def unit_overlap_misc(sess, ctx):
                     eng.prove("C10:overlap-init:unexpected-%s" % e.exc, False, props=P10)
                 return None
             h = eng.st.heap[me.oid]
-            eng.prove("C10:overlap-init:accepted-only-hop<block", And(hd.t < bd.t, bd.t > 0), props=P10)
+            # the statement rejects hop_dur > block_dur; equality is routed to the fixed reader by AudioReader and may be
+            # rejected or accepted here
+            eng.prove("C10:overlap-init:accepted-only-hop<=block", And(hd.t <= bd.t, bd.t > 0), props=P10)
             eng.prove("C10:overlap-init:sizes", And(I(h["_block_size"]) == r_trunc(bd.t * R(v.sr)),
                                                     I(h["_hop_size"]) == r_trunc(hd.t * R(v.sr))), props=P10)
             eng.prove("C10:overlap-init:block-generator-created", len(gh.get("gens", [])) == 1 and h["_blocks"] is gh["gens"][0], props=PB)
